@@ -4,7 +4,7 @@ use crate::{
     error::{assert_finite, assert_limited_precision, panic_power_negative_base},
     fbig::FBig,
     repr::{Context, Repr, Word},
-    round::{Round, Rounded},
+    round::{Round, Rounded, Rounding},
 };
 use dashu_base::{AbsOrd, Approximation::*, BitTest, DivRemEuclid, EstimatedLog2, Sign};
 use dashu_int::IBig;
@@ -319,7 +319,7 @@ impl<R: Round> Context<R> {
             k += 1;
         }
 
-        if no_scaling {
+        let result = if no_scaling {
             sum.with_precision(self.precision)
         } else if minus_one {
             // add extra digits to compensate for the subtraction
@@ -330,6 +330,13 @@ impl<R: Round> Context<R> {
         } else {
             self.powi(sum.repr(), Repr::<B>::BASE.pow(n).into())
                 .map(|v| v << s)
+        };
+
+        // The exponential of a non-zero number is irrational, so the result is never exact
+        // (the flag from the last rounding doesn't know about the truncated series).
+        match result {
+            Exact(v) => Inexact(v, Rounding::NoOp),
+            inexact => inexact,
         }
     }
 }
